@@ -7,3 +7,4 @@ INVARIANT WithinCap
 INVARIANT ResultIsContract
 INVARIANT ManyIsContract
 INVARIANT ResultStrict
+PROPERTY Terminates
